@@ -33,6 +33,9 @@ func init() {
 	register(&Rule{ID: "C14.tv", Floor: 12,
 		Text: "Glob / globWithLimit / glob / hasMeta / cleanGlobPath, WalkDir / walkDir and ReadDir are structurally identical, after the same normalisation and the call-correspondence table (os.X(a) ~ vfs.X(a), os.Open(n) ~ OpenFile(n, O_RDONLY, 0), fs.FileInfoToDirEntry(i) ~ &statDirEntry{i}, sort by Name), to filepath.Glob..., filepath.WalkDir / walkDir and os.ReadDir of this toolchain",
 		Run:  func(rc *RuleCtx) { tvRule(rc, "C14") }})
+	register(&Rule{ID: "C12.tv", Floor: 1,
+		Text: "the generic WriteFile, on which FailFS.WriteFile is built, is structurally identical (after the same normalisation and call correspondence) to os.WriteFile of this toolchain: in particular the error of Close is reported when the write succeeded - a composite fails when any primitive it is built on fails",
+		Run:  func(rc *RuleCtx) { tvRule(rc, "C12") }})
 	register(&Rule{ID: "C14.sorted", Floor: 5,
 		Text: "every function that builds a listing from a directory's map (ranging over children) sorts the listing by name after the last element is stored and before it is returned",
 		Run:  c14Sorted})
